@@ -17,7 +17,8 @@ Theorem container_adequate_partial : forall o k e v ao s,
 Proof.
   intros o k e v ao s Hk Ho He Ha.
   destruct k; try discriminate; destruct o; try discriminate; destruct e; try discriminate;
-    destruct v; destruct s; cbn in Ha; try discriminate; cbn; eauto.
+    destruct v; destruct s; cbn in Ha; try discriminate; cbn;
+    repeat match goal with |- context [?x =? 0] => destruct (x =? 0) end; cbn; eauto.
 Qed.
 
 (* Full statement over all occurrence indicators (false of the code): the same without documented_occ. *)
@@ -40,7 +41,8 @@ Theorem container_roundtrip_partial : forall o k e v ao s,
 Proof.
   intros o k e v ao s Hk Ho He Ha Hx.
   destruct k; try discriminate; destruct o; try discriminate; destruct e; try discriminate;
-    destruct v; destruct s; cbn in Ha; try discriminate; cbn in Hx; try discriminate; reflexivity.
+    destruct v; destruct s; cbn in Ha; try discriminate; cbn in Hx; try discriminate; unfold roundtrip; cbn;
+    repeat match goal with |- context [?x =? 0] => destruct (x =? 0) end; reflexivity.
 Qed.
 
 Theorem container_roundtrip_refuted : exists o e v ao s s',
@@ -58,7 +60,9 @@ Theorem container_revalidates : forall o k e v ao s s',
 Proof.
   intros o k e v ao s s' Hk Ho He Ha Hr.
   destruct k; try discriminate; destruct o; try discriminate; destruct e; try discriminate;
-    destruct v; destruct s; cbn in Ha; try discriminate; cbn in Hr; inversion Hr; subst; cbn; try reflexivity; exact Ha.
+    destruct v; destruct s; cbn in Ha; try discriminate; unfold roundtrip in Hr; cbn in Hr;
+    repeat match type of Hr with context [?x =? 0] => destruct (x =? 0) end;
+    inversion Hr; subst; cbn; try reflexivity; exact Ha.
 Qed.
 
 (* the decision itself, for named members: `?` gives Option<..> with skip_serializing_if ... *)
@@ -75,4 +79,4 @@ Proof. intros o k e v Hk Hv. destruct k; try discriminate; cbn [field_desc fd_ty
 (* single-entry arrays become Vec<T> independently of the occurrence; Vec admits every length *)
 Theorem array_vec_admits_all : forall e n,
   documented_etype e = true -> de_val (TVec (entry_type e VScalar)) (SMany n) = Some (RMany n).
-Proof. intros e n H. destruct e; try discriminate; reflexivity. Qed.
+Proof. intros e n H. destruct e; try discriminate; cbn; destruct (n =? 0); reflexivity. Qed.
